@@ -2349,6 +2349,7 @@ impl XmlElement {
     }
 
     pub fn append_attribute(&mut self, attr: Rc<XmlItem>) {
+        attr.set_parent_id(Some(self.id()));
         attr.init_order_recursive();
         self.attributes.push(attr);
     }
@@ -2388,6 +2389,7 @@ impl XmlElement {
         {
             self.attributes
                 .retain(|v| v.as_attribute().unwrap().borrow().local_name() != name);
+            v.set_parent_id(None);
             v.clear_order();
             Some(v)
         } else {
